@@ -8,7 +8,8 @@
 (***************************************************************************)
 EXTENDS Integers, Sequences, FiniteSets, TLC, SequencesExt
 
-Calls == {"Render", "RenderColor", "RenderPatch", "RenderMerge", "JsonA", "YamlA", "JsonB", "EqualsAB", "DiffAgain", "ReadMergeRender"}
+Calls == {"Render", "RenderColor", "RenderPatch", "RenderMerge", "JsonA", "YamlA", "JsonB", "EqualsAB", "DiffAgain", "ReadMergeRender",
+          "JsonASet", "YamlBMset"}      \* rendering under a SET / MULTISET render option
 
 CONSTANT MaxLen
 VARIABLES vals, memo, hist
